@@ -378,7 +378,7 @@ func c19Vectors(res *fw.CaseResult, rng *rand.Rand, rep int) {
 			eb := conversion.EdgeListToBytes(e)
 			back := conversion.BytesToEdgeList(eb)
 			res.Eval(true, "edges", n, e[0])
-			if len(eb) != 8*n || !slices.Equal(back, e) {
+			if !slices.Equal(back, e) { // the width of an entry is not part of the statement
 				res.Violate("edgelist-roundtrip", "edges:roundtrip", fmt.Sprintf("length %d", n), nil)
 			}
 		}
